@@ -95,9 +95,10 @@ ORACLE_ONLY = {2: "UnboundedBlocking", 3: "UnboundedDropping"}
 def params_line(ex):
     b = ex.get("backend", {})
     q = ex.get("bounded", {})
-    return "params drain=%d invalidBits=%d refreshAfterSample=%d catchAll=%d batchPct=%d reportFlush=%d" % (
+    return "params drain=%d invalidBits=%d refreshAfterSample=%d catchAll=%d batchPct=%d reportFlush=%d keepUnreported=%d" % (
         1 if q.get("drainPublish", True) else 0, b.get("invalidBits", 32), 1 if b.get("refreshAfterSample", True) else 0,
-        1 if b.get("catchAllFormat", True) else 0, q.get("defaultPercent", 5), 1 if b.get("reportBeforeFlushCleanup", True) else 0)
+        1 if b.get("catchAllFormat", True) else 0, q.get("defaultPercent", 5), 1 if b.get("reportBeforeFlushCleanup", True) else 0,
+        1 if b.get("cleanupKeepsUnreported", True) else 0)
 
 
 def run_script(hbin, name, lines, workdir):
@@ -136,8 +137,11 @@ def collect(ck, tier, ex):
     """run every script through harness + driver + oracles; cached by content hash (same tree + seed ⇒ same result)"""
     res = {"cases": 0, "lines": 0, "nontrivial": 0, "mismatches": [], "oracle": [], "aborts": [], "samples": [], "stats": {}}
     bins = {}
-    for v in list(VARIANTS) + list(ORACLE_ONLY):
-        ok, hbin, log = vlib.build_harness("h2_v%d" % v, ["h2_backend.cpp"], extra_flags=["-fno-access-control", "-DH2_VARIANT=%d" % v])
+    allv = list(VARIANTS) + list(ORACLE_ONLY)
+    with ThreadPoolExecutor(max_workers=4) as pool:
+        built = list(pool.map(lambda v: vlib.build_harness("h2_v%d" % v, ["h2_backend.cpp"],
+                                                           extra_flags=["-fno-access-control", "-DH2_VARIANT=%d" % v]), allv))
+    for v, (ok, hbin, log) in zip(allv, built):
         if not ok:
             res["build_error"] = log
             return res
